@@ -247,11 +247,16 @@ def _step(node, facts: Tuple[Tuple[str, object], ...]) -> Tuple[Tuple[str, objec
             elif all(isinstance(e, (int, str, bytes, bool, type(None), float)) for e in v):
                 new[name] = tuple(v)
 
-    if node.kind == "stmt" and isinstance(st, ast.Assign) and len(st.targets) == 1 and dotted(st.targets[0]):
+    if node.kind == "stmt" and isinstance(st, ast.Assign) and all(dotted(t) for t in st.targets):
         try:
-            _keep(dotted(st.targets[0]), peval(st.value, d))
+            v = peval(st.value, d)
+            for t in st.targets:
+                _keep(dotted(t), v)
         except NotConst:
-            pass
+            # X = SomeClass(...): a freshly constructed object is neither None nor falsy
+            if isinstance(st.value, ast.Call) and (dotted(st.value.func) or "").split(".")[-1][:1].isupper():
+                for t in st.targets:
+                    new[dotted(t)] = NONNULL
     elif node.kind == "stmt" and isinstance(st, ast.AugAssign) and dotted(st.target) and dotted(st.target) in d:
         try:
             _keep(dotted(st.target), peval(ast.BinOp(left=st.target, op=st.op, right=st.value), d))
@@ -367,7 +372,9 @@ def implied(g, n: int, good: Sequence[Dict[str, object]], bad: Sequence[Dict[str
         if r[1] != t:
             cands.append(r)
         for e, at in cands:
-            if all(test_value(e, f) is pol for f in good) and all(test_value(e, f) is (not pol) for f in bad):
+            # the test fails (is decided, with the other outcome) under every bad fact-set; under the good ones it succeeds or - for a
+            # compound test that also reads other state - is not decided by the given facts alone
+            if all(test_value(e, f) in (pol, None) for f in good) and all(test_value(e, f) is (not pol) for f in bad):
                 if not after or any(g.dominates(a, at) for a in after):
                     return True
     return False
@@ -950,12 +957,23 @@ class MiniVM:
         elif isinstance(tgt, ast.Attribute):
             self.setattr(self.eval(tgt.value, env, mod, owner), tgt.attr, val)
         elif isinstance(tgt, (ast.Tuple, ast.List)):
-            if any(isinstance(e, ast.Starred) for e in tgt.elts):
-                raise VMError("starred assignment")
             try:
                 vals = list(val)
             except TypeError as e:
                 raise VMRaise_native(e)
+            stars = [i for i, e in enumerate(tgt.elts) if isinstance(e, ast.Starred)]
+            if stars:
+                if len(stars) > 1:
+                    raise VMError("two starred targets")
+                i, after = stars[0], len(tgt.elts) - stars[0] - 1
+                if len(vals) < len(tgt.elts) - 1:
+                    raise VMRaise_native(ValueError(f"not enough values to unpack (expected at least {len(tgt.elts) - 1}, got {len(vals)})"))
+                for t, v in zip(tgt.elts[:i], vals[:i]):
+                    self.assign(t, v, env, mod, owner)
+                self.assign(tgt.elts[i].value, vals[i:len(vals) - after], env, mod, owner)
+                for t, v in zip(tgt.elts[i + 1:], vals[len(vals) - after:]):
+                    self.assign(t, v, env, mod, owner)
+                return
             if len(vals) != len(tgt.elts):
                 raise VMRaise_native(ValueError(f"{'too many' if len(vals) > len(tgt.elts) else 'not enough'} values to unpack (expected {len(tgt.elts)})"))
             for t, v in zip(tgt.elts, vals):
@@ -1328,3 +1346,299 @@ class _ClassScope:
 
 class VMStub:
     """base of the harness's stand-ins (transport): plain Python objects whose methods may be called from interpreted code"""
+
+
+# =====================================================================================================================
+# Inlined views: a private helper that the rule tables do not know (i.e. one introduced by a refactor) is analysed as
+# if its body stood at the call site, so that dominance / must-precede / coupling questions keep their meaning when
+# statements move into `self._helper()` or out of it.
+# =====================================================================================================================
+import copy as _copy
+
+
+class _NoInline(Exception):
+    pass
+
+
+def _clone(node):
+    """structural copy of an AST (sub)tree; parent links and other annotations are not followed"""
+    if isinstance(node, list):
+        return [_clone(x) for x in node]
+    if not isinstance(node, ast.AST):
+        return node
+    new = node.__class__()
+    for f in node._fields:
+        if hasattr(node, f):
+            setattr(new, f, _clone(getattr(node, f)))
+    for a in node._attributes:
+        if hasattr(node, a):
+            setattr(new, a, getattr(node, a))
+    return new
+
+
+def _ends_in_return(stmts) -> bool:
+    if not stmts:
+        return False
+    last = stmts[-1]
+    if isinstance(last, (ast.Return, ast.Raise)):
+        return True
+    if isinstance(last, ast.If) and last.orelse:
+        return _ends_in_return(last.body) and _ends_in_return(last.orelse)
+    return False
+
+
+def _has_return(node) -> bool:
+    return any(isinstance(x, ast.Return) for x in walk_local(node))
+
+
+def _structure_returns(stmts, on_return):
+    """Rewrite a helper body into one without ``return``: ``on_return(value)`` gives the statements that replace ``return value``;
+    the code following an ``if`` that may return is moved (copied) into the branches that fall through."""
+    out = []
+    for i, st in enumerate(stmts):
+        if isinstance(st, ast.Return):
+            out.extend(on_return(st.value))
+            return out
+        if isinstance(st, ast.If) and _has_return(st):
+            rest = stmts[i + 1:]
+            body = _structure_returns(list(st.body) + ([] if _ends_in_return(st.body) else _clone(rest)), on_return)
+            orelse = _structure_returns(list(st.orelse) + ([] if (st.orelse and _ends_in_return(st.orelse)) else _clone(rest)), on_return)
+            out.append(ast.If(test=st.test, body=body or [ast.Pass()], orelse=orelse))
+            return out
+        if _has_return(st):
+            raise _NoInline("return inside a loop / try / with")
+        out.append(st)
+    return out
+
+
+class _Subst(ast.NodeTransformer):
+    def __init__(self, mapping):
+        self.mapping = mapping
+
+    def visit_Name(self, node):
+        if node.id in self.mapping and isinstance(node.ctx, ast.Load):
+            return _clone(self.mapping[node.id])
+        return node
+
+
+def _as_expression(stmts):
+    """if/return-only body -> a single expression (nested conditional expressions)"""
+    stmts = [s for s in stmts if not (isinstance(s, ast.Expr) and isinstance(s.value, ast.Constant))]
+    if not stmts:
+        return ast.Constant(None)
+    st = stmts[0]
+    if isinstance(st, ast.Return):
+        return st.value if st.value is not None else ast.Constant(None)
+    if isinstance(st, ast.If):
+        if _ends_in_return(st.body) and not st.orelse:
+            return ast.IfExp(test=st.test, body=_as_expression(st.body), orelse=_as_expression(stmts[1:]))
+        if st.orelse and _ends_in_return(st.body) and _ends_in_return(st.orelse):
+            return ast.IfExp(test=st.test, body=_as_expression(st.body), orelse=_as_expression(st.orelse))
+    raise _NoInline("helper body is not an if/return expression")
+
+
+class Inliner:
+    """``Inliner(mod, cls_names, known)``: ``known`` = method names the rules are written against (never inlined)."""
+
+    def __init__(self, mod, cls_names: Sequence[str], known: Iterable[str], depth: int = 3):
+        from sa.source import mro_lookup
+        self.mod, self.known, self.depth = mod, set(known), depth
+        self.classes = [c for c in mod.classes() if c.name in cls_names]
+        self._lookup = lambda name: next((r[1] for c in self.classes for r in [mro_lookup(mod, c, name)] if r and isinstance(r[1], (ast.FunctionDef,))), None)
+        self.inlined: Set[str] = set()        # helper names whose every visited call site was inlined
+        self.refused: Dict[str, str] = {}
+        self._views: Dict[int, ast.AST] = {}
+
+    def helper_of(self, call):
+        if isinstance(call, ast.Call) and isinstance(call.func, ast.Attribute) and isinstance(call.func.value, ast.Name) and call.func.value.id == "self" \
+                and call.func.attr not in self.known and not call.keywords:
+            h = self._lookup(call.func.attr)
+            if h is not None and not h.decorator_list and not (h.args.vararg or h.args.kwarg or h.args.kwonlyargs) \
+                    and len(h.args.args) - 1 == len(call.args) and not any(isinstance(x, (ast.Yield, ast.YieldFrom, ast.Await)) for x in walk_local(h)):
+                return h
+        return None
+
+    def _body(self, h, call):
+        body = [s for s in _clone(h.body) if not (isinstance(s, ast.Expr) and isinstance(s.value, ast.Constant) and isinstance(s.value.value, str))]
+        params = [a.arg for a in h.args.args[1:]]
+        rebound = {t.id for s in walk_local(ast.Module(body=body, type_ignores=[])) if isinstance(s, (ast.Assign, ast.AugAssign, ast.For))
+                   for t in ([s.target] if not isinstance(s, ast.Assign) else s.targets) if isinstance(t, ast.Name)}
+        if rebound & set(params):
+            raise _NoInline("parameter re-bound in helper")
+        sub = _Subst(dict(zip(params, call.args)))
+        return [sub.visit(s) for s in body]
+
+    def _stmts(self, stmts, level):
+        out = []
+        for st in stmts:
+            out.extend(self._stmt(st, level))
+        return out
+
+    def _stmt(self, st, level):
+        # recurse into compound statements first
+        for field in ("body", "orelse", "finalbody"):
+            if isinstance(getattr(st, field, None), list) and not isinstance(st, (ast.FunctionDef, ast.AsyncFunctionDef, ast.ClassDef, ast.Lambda)):
+                setattr(st, field, self._stmts(getattr(st, field), level))
+        for h in getattr(st, "handlers", []) or []:
+            h.body = self._stmts(h.body, level)
+        if level >= self.depth:
+            return [st]
+        call = None
+        mode = None
+        if isinstance(st, ast.Expr) and self.helper_of(st.value):
+            call, mode = st.value, "expr"
+        elif isinstance(st, ast.Return) and st.value is not None and self.helper_of(st.value):
+            call, mode = st.value, "return"
+        elif isinstance(st, ast.Assign) and len(st.targets) == 1 and isinstance(st.targets[0], (ast.Name, ast.Attribute)) and self.helper_of(st.value):
+            call, mode = st.value, "assign"
+        try:
+            if call is not None:
+                h = self.helper_of(call)
+                body = self._body(h, call)
+                if mode == "expr":
+                    new = _structure_returns(body, lambda v: [ast.Expr(v)] if v is not None and not isinstance(v, (ast.Constant, ast.Name)) else [])
+                elif mode == "return":
+                    new = body if _ends_in_return(body) else body + [ast.Return(value=ast.Constant(None))]
+                else:
+                    tgt = st.targets[0]
+                    new = _structure_returns(body + ([] if _ends_in_return(body) else [ast.Return(value=ast.Constant(None))]),
+                                             lambda v: [ast.Assign(targets=[_clone(tgt)], value=v if v is not None else ast.Constant(None), lineno=st.lineno)])
+                new = new or [ast.Pass()]
+                for n in new:
+                    ast.copy_location(n, st)
+                    ast.fix_missing_locations(n)
+                self.inlined.add(call.func.attr)
+                return self._stmts(new, level + 1)
+        except _NoInline as e:
+            self.refused[call.func.attr] = str(e)
+            return [st]
+        # helper calls in expression position
+        return [self._exprs(st, level)]
+
+    def _exprs(self, st, level):
+        outer = self
+
+        class T(ast.NodeTransformer):
+            def visit_Call(self, node):
+                self.generic_visit(node)
+                h = outer.helper_of(node)
+                if h is None:
+                    return node
+                try:
+                    e = _as_expression(outer._body(h, node))
+                except _NoInline as ex:
+                    outer.refused[node.func.attr] = str(ex)
+                    return node
+                outer.inlined.add(node.func.attr)
+                return ast.copy_location(e, node)
+
+            def visit_FunctionDef(self, node):
+                return node
+
+            visit_Lambda = visit_AsyncFunctionDef = visit_FunctionDef
+
+        if isinstance(st, (ast.If, ast.While)):
+            st.test = T().visit(st.test)
+            return st
+        if isinstance(st, (ast.For, ast.With, ast.Try, ast.FunctionDef, ast.AsyncFunctionDef, ast.ClassDef)):
+            if isinstance(st, ast.For):
+                st.iter = T().visit(st.iter)
+            return st
+        return ast.fix_missing_locations(T().visit(st))
+
+    def view(self, func):
+        """An analysis copy of ``func`` with unknown private helpers of the same class expanded at their call sites."""
+        v = self._views.get(id(func))
+        if v is None:
+            v = _clone(func)
+            v.body = self._stmts(v.body, 0)
+            ast.fix_missing_locations(v)
+            for parent in ast.walk(v):
+                for child in ast.iter_child_nodes(parent):
+                    child._parent = parent  # type: ignore[attr-defined]
+            v._parent = getattr(func, "_parent", None)  # type: ignore[attr-defined]
+            self._views[id(func)] = v
+        return v
+
+    def callers(self):
+        """{helper name: set of method names (of the classes) that call it}"""
+        out: Dict[str, Set[str]] = {}
+        from sa.source import methods as _methods
+        for c in self.classes:
+            for name, m in _methods(c).items():
+                for x in walk_local(m):
+                    if isinstance(x, ast.Call) and isinstance(x.func, ast.Attribute) and isinstance(x.func.value, ast.Name) and x.func.value.id == "self":
+                        out.setdefault(x.func.attr, set()).add(name)
+        return out
+
+    def permitted(self, fname: str, allowed: Iterable[str], _seen=None) -> bool:
+        """fname is allowed itself, or it is an unknown private helper all of whose callers are permitted (closure)."""
+        allowed = set(allowed)
+        if fname in allowed:
+            return True
+        if fname in self.known:
+            return False
+        _seen = _seen or set()
+        if fname in _seen:
+            return False
+        _seen.add(fname)
+        cs = self.callers().get(fname, set())
+        return bool(cs) and all(self.permitted(c, allowed, _seen) for c in cs)
+
+
+def resolve_locals(func, expr, depth: int = 3):
+    """Replace local names that are assigned exactly once in ``func`` (plain assignment) by the assigned expression."""
+    if depth <= 0:
+        return expr
+    defs = {}
+    counts: Dict[str, int] = {}
+    for st in walk_local(func):
+        if isinstance(st, (ast.Assign, ast.AugAssign, ast.AnnAssign, ast.For)):
+            for t in assigned_targets(st):
+                if isinstance(t, ast.Name):
+                    counts[t.id] = counts.get(t.id, 0) + 1
+                    if isinstance(st, ast.Assign) and len(st.targets) == 1 and st.targets[0] is t:
+                        defs[t.id] = st.value
+    params = {a.arg for a in getattr(func.args, "args", [])} if hasattr(func, "args") else set()
+    mapping = {k: v for k, v in defs.items() if counts.get(k) == 1 and k not in params}
+    if not mapping:
+        return expr
+    new = _Subst(mapping).visit(_clone(expr))
+    return resolve_locals(func, new, depth - 1) if src(new) != src(expr) else new
+
+
+class Views:
+    """Per-module Inliners for a checker: ``known`` = {module path: {class name: [method names the rules know]}}."""
+
+    def __init__(self, ctx, known: Dict[str, Dict[str, Sequence[str]]]):
+        self.ctx, self.known = ctx, known
+        self._inl: Dict[str, Inliner] = {}
+
+    def inliner(self, rel) -> Inliner:
+        if rel not in self._inl:
+            table = self.known.get(rel, {})
+            names = {n for ns in table.values() for n in ns}
+            self._inl[rel] = Inliner(self.ctx.mod(rel), list(table), names)
+        return self._inl[rel]
+
+    def f(self, rel, qual):
+        func = self.ctx.func(rel, qual)
+        cls = qual.split(".")[0] if "." in qual else None
+        if cls is None or cls not in self.known.get(rel, {}):
+            return func
+        return self.inliner(rel).view(func)
+
+    def methods(self, rel, cls_name):
+        """[(name, function to analyse)]: known methods as inlined views (all computed first), then helpers unknown to the
+        rules that could not be inlined at every call site (judged on their own)."""
+        from sa.source import methods as _methods
+        inl = self.inliner(rel)
+        ms = _methods(self.ctx.cls(rel, cls_name))
+        known = set(self.known.get(rel, {}).get(cls_name, ()))
+        for c in self.known.get(rel, {}):               # populate inl.inlined from every known method of the module first
+            for n, m in _methods(self.ctx.cls(rel, c)).items():
+                if n in self.known[rel][c]:
+                    inl.view(m)
+        out = [(n, inl.view(m)) for n, m in ms.items() if n in known]
+        out += [(n, m) for n, m in ms.items() if n not in known and (n not in inl.inlined or n in inl.refused)]
+        return out
